@@ -22,6 +22,12 @@ Oracle (DESIGN §C17; model = the generator's own edge list, never `Job._depende
 Histories (second and third phase): the same clauses for a Batch object that is built, run, edited and run again
 (dry runs, failed runs, clean runs, rejected runs in between) - see the comment above gen_history.
 
+Always-run flag ("skips exactly the NON-ALWAYS-RUN jobs"): whether a job is an always-run job is what the LAST `always_run(...)`
+call on it said (`always_run()`, `always_run(True)`, `always_run(False)`; no call: it is not).  Half of the pipelines make 0..4 such
+calls per job, anywhere between the job's creation and run() (motif: failing job <- job switched on and off again <- ordinary job);
+in the LocalBackend histories the flag of jobs that an earlier run() skipped is set again in a later sitting.  The skip oracle is
+unchanged: it uses the flag the generator asked for last.
+
 Python jobs ("every pipeline built with the Batch DSL", dependencies "through a consumed resource"): a PythonJob consumes a
 resource by receiving it as an argument of PythonJob.call() - positionally, as a keyword argument, inside lists / tuples /
 dicts (nested) - and produces PythonResults (and the as_str / as_json / as_repr files derived from them).  Phase 'python'
@@ -46,8 +52,12 @@ RULE = (
     'explicit (depends_on), resource-induced (consumer command mentions producer.out), both, or through a declared '
     'resource group (whole group or one member); job creation, depends_on, always_run and command() calls are emitted '
     'as one random linear extension of the only constraints the DSL imposes (create before use, producer command before '
-    'consumer command); random always_run flags and failing sets. A case is non-trivial when it has >= 2 jobs and >= 1 '
-    'edge; distinct by (edge list with kinds, always_run vector, failing vector, creation order). quick 150 pipelines, '
+    'consumer command); random always_run flags and failing sets; in half of the pipelines the flag of a job is the outcome of 0..4 '
+    'always_run() / always_run(True) / always_run(False) calls in sequence (last call decides; sequences 1, 01, 101, 0101 for always-run jobs, '
+    '-, 0, 10, 110, 010, 100 for the others), a quarter of the remaining DAGs get the motif failing job <- job switched on and off again '
+    '<- ordinary job; in the LocalBackend histories a later sitting sets the flag again (75 %) on 1..2 jobs an earlier run() has seen, '
+    'preferring jobs the first run skipped, and puts a new failing job in front of a job it switched off. A case is non-trivial when it has >= 2 jobs and >= 1 '
+    'edge; distinct by (edge list with kinds, always_run vector, always_run call sequences, failing vector, creation order). quick 150 pipelines, '
     'thorough 6 shards x 800. '
     'HISTORIES (phases history / history_plan): one Batch object is built in 2..4 sittings, each closed by run() '
     '(a quarter dry runs): sitting 1 is an acyclic pipeline as above (60 %: one dependency forced to fail so that its '
@@ -75,6 +85,7 @@ ASSUMPTIONS = [
     '/bin/bash and /bin/sh execute `echo >> file`, `read < file`, `exit N` faithfully; appends of < 100 bytes to the shared log by sequential subprocesses are ordered',
     'the generator\'s own edge list (what it asked the DSL for) is the dependency relation of the property',
     'Job._job_id is the job number the property speaks about',
+    'a job is "always-run" iff the last always_run(...) call made on it before run() had a true argument (always_run() = always_run(True)); no call = not always-run',
     'histories: the recording backend (15 lines, subclass of the real hailtop.batch.backend.Backend) mirrors ServiceBackend\'s use of '
     'Batch._unsubmitted_jobs / Job._submitted; with it only the Batch-side clauses (numbering, cycle rejection, hand-over order) are decided',
     'histories: what a later run owes to jobs whose only bad dependency failed in an earlier run, to jobs that sat through a LocalBackend dry run, '
@@ -257,6 +268,44 @@ def gen_pycalls(rng, j, consumed, py, raw_ok):
     return calls
 
 
+def gen_flag_calls(rng, final, rich, force_reset=False):
+    """the always_run(...) calls made on one job, in call order; the LAST call decides whether the job is an always-run job
+    (no call at all: it is not).  None stands for `always_run()`, True / False for `always_run(True)` / `always_run(False)`.
+    rich=False: the one form the documentation shows (`always_run()` on always-run jobs, nothing on the others);
+    force_reset (final False only): the flag was on at some point and is switched off again."""
+
+    def on():
+        return rng.choice([None, None, True])
+
+    if final:
+        if not rich:
+            return [None]
+        return rng.choice([[], [], [], [False], [on(), False], [False, on(), False]]) + [on()]
+    if force_reset:
+        return rng.choice([[on(), False], [on(), False], [on(), on(), False], [False, on(), False], [on(), False, False]])
+    if not rich:
+        return []
+    return rng.choice([[], [], [False], [on(), False], [on(), False], [on(), on(), False], [False, on(), False], [on(), False, False]])
+
+
+def flag_class(calls):
+    """what the always_run(...) calls made on one job so far amount to (calls as booleans, see flag_calls_of)"""
+    if not calls:
+        return 'none'
+    if calls[-1]:
+        return 'reraised' if not all(calls) else 'on'
+    return 'reset' if any(calls) else 'false_only'
+
+
+def flag_calls_of(ops, into=None):
+    """{job: [bool, ...]} - the always_run(...) calls of an operation list in call order"""
+    out = {} if into is None else into
+    for name, j, arg in ops:
+        if name == 'always_run':
+            out.setdefault(j, []).append(True if arg is None else bool(arg))
+    return out
+
+
 def gen_case(rng, py=None):
     """py=None: bash jobs only (and exactly the draws of the bash-only generator).  py={'p': [...], 'n_max': n,
     'force': p}: every job is a PythonJob with a probability drawn from 'p'."""
@@ -303,6 +352,7 @@ def gen_case(rng, py=None):
     p_fail = rng.choice([0.0, 0.15, 0.3, 0.5, 0.9])
     always = [rng.random() < p_always for _ in range(n)]
     fails = [rng.random() < p_fail for _ in range(n)]
+    shield = False
     if not cyclic and n >= 3 and rng.random() < 0.25:
         # motif: failed job <- always-run job that succeeds <- ordinary job (the shield of the least fixpoint)
         a, b, c = sorted(rng.sample(range(n), 3))
@@ -312,6 +362,23 @@ def gen_case(rng, py=None):
         fails[ja], always[ja] = True, True
         fails[jb], always[jb] = False, True
         always[jc] = False
+        shield = True
+    # the always-run flag is whatever the LAST always_run(...) call on the job says: half of the pipelines make several calls per job
+    rich_flags = rng.random() < 0.5
+    reset = set()
+    if not cyclic and not shield and n >= 2 and rng.random() < 0.25:
+        # motif: failing job <- job whose flag was switched on and off again (<- ordinary job, skipped through the skipped one)
+        k = 3 if n >= 3 and rng.random() < 0.6 else 2
+        picks = sorted(rng.sample(range(n), k))
+        ja, jb = hidden[picks[0]], hidden[picks[1]]
+        edges.setdefault((jb, ja), rng.choice(EDGE_KINDS))
+        fails[ja], always[ja] = True, True
+        always[jb] = False
+        reset.add(jb)
+        if k == 3:
+            jc = hidden[picks[2]]
+            edges.setdefault((jc, jb), rng.choice(EDGE_KINDS))
+            always[jc] = False
     py_flags = [False] * n
     if py is not None:
         p_py = rng.choice(py['p'])
@@ -333,6 +400,7 @@ def gen_case(rng, py=None):
             if py_flags[e[1]] and k in ('group', 'group_member'):
                 edges[e] = 'resource'  # a PythonJob has no resource groups: its results (and the files derived from them) are consumed
     uses_group = [any(k in ('group', 'group_member') and d == j for (_, d), k in edges.items()) for j in range(n)]
+    flag_calls = [gen_flag_calls(rng, always[j], rich_flags, force_reset=j in reset and not always[j]) for j in range(n)]
 
     # ---- operations and their only constraints; then one random linear extension ----
     ops = []  # (name, job, arg)
@@ -345,7 +413,10 @@ def gen_case(rng, py=None):
 
     create = [add(('create', j, None)) for j in range(n)]
     produce = [add(('produce', j, None), [create[j]]) for j in range(n)]
-    flag = [add(('always_run', j, None), [create[j]]) if always[j] else None for j in range(n)]
+    for j in range(n):
+        prev = create[j]
+        for a in flag_calls[j]:
+            prev = add(('always_run', j, a), [prev])  # the calls on one job keep their order; otherwise anywhere after creation
     last_cmd = {j: [produce[j]] for j in range(n)}
     py_consumed = {}
     for (j, d), kind in sorted(edges.items()):
@@ -390,6 +461,7 @@ def gen_case(rng, py=None):
         'cyclic': cyclic,
         'cycle_shape': cycle_shape,
         'always': always,
+        'flag_calls': flag_calls,
         'fails': fails,
         'uses_group': uses_group,
         'py': py_flags,
@@ -581,7 +653,10 @@ def apply_op(b, jobs, case, qlog, name, j, arg, results=None):
         else:
             jobs[j] = b.new_job(name=f'job{j}' if j % 2 else None)
     elif name == 'always_run':
-        jobs[j].always_run()
+        if arg is None:
+            jobs[j].always_run()
+        else:
+            jobs[j].always_run(arg)
     elif name == 'depends_on':
         jobs[j].depends_on(jobs[arg])
     elif name == 'consume' and len(arg) == 3:
@@ -777,6 +852,18 @@ def check(ctx, case, obs):
     # executed set
     skipped, failed, why = model_outcome(case)
     runs = obs['runs']
+    # the always_run(...) calls the generator made per job; the model flag is what the last call said (none: not always-run)
+    fcalls = flag_calls_of(case['ops'])
+    fcls = {j: flag_class(fcalls.get(j, [])) for j in range(n)}
+    for j in range(n):
+        assert bool(fcalls.get(j) and fcalls[j][-1]) == bool(case['always'][j]), (j, fcalls.get(j), case['always'])
+        for a in fcalls.get(j, []):
+            ctx.count('flag_calls_on' if a else 'flag_calls_off')
+        ctx.count('flag_jobs_' + fcls[j])
+        ctx.seen('flag_call_sequences', ''.join('1' if a else '0' for a in fcalls.get(j, [])))
+    for name, j, arg in case['ops']:
+        if name == 'always_run' and arg is True:
+            ctx.count('flag_calls_on_explicit_true')
     pos = {}
     for k, j in enumerate(runs):
         if j in pos:
@@ -790,8 +877,18 @@ def check(ctx, case, obs):
                 ctx.count('skipped_via_skipped_parent')
             if _pyc(case, j) and {k for jj, d, k in case['edges'] if jj == j and d in why[j]} <= set(RES_KINDS):
                 ctx.count('py_consumer_skipped_only_through_call_arguments')
+            if fcls[j] == 'reset':
+                ctx.count('flag_reset_job_skipped')
+            if fcls[j] == 'false_only':
+                ctx.count('flag_false_only_job_skipped')
+            if any(skipped[p] and fcls[p] == 'reset' for p in why[j]):
+                ctx.count('flag_child_of_skipped_reset_job_skipped')
         else:
             ctx.count('jobs_executed')
+            if fcls[j] == 'reset' and not why[j]:
+                ctx.count('flag_reset_job_ran_unaffected')
+            if fcls[j] == 'reraised' and why[j]:
+                ctx.count('flag_reraised_job_ran_despite_bad_parent')
             if _pyc(case, j):
                 ctx.count('py_jobs_executed')
             if failed[j]:
@@ -803,7 +900,14 @@ def check(ctx, case, obs):
         if ran and skipped[j]:
             only_skipped_parents = not any(failed[p] for p in deps[j])
             kinds = {k for jj, d, k in case['edges'] if jj == j and d in why[j]}
-            if kinds <= set(RES_KINDS) and _pyc(case, j):
+            # did a dependency of j really fail / really not run (then j itself was wrongly let through), or is j only the
+            # consequence of a dependency that should have been skipped and was not
+            own = any((p in pos and case['fails'][p]) or p not in pos for p in why[j])
+            if own and fcls[j] == 'reset':
+                key = 'skip/job-reset-to-not-always-run-ran'
+            elif own and fcls[j] == 'false_only':
+                key = 'skip/job-marked-not-always-run-ran'
+            elif kinds <= set(RES_KINDS) and _pyc(case, j):
                 key = 'skip/python-consumer-of-failed-or-skipped-producer-ran'
             elif only_skipped_parents:
                 key = 'skip/child-of-skipped-job-ran'
@@ -811,10 +915,11 @@ def check(ctx, case, obs):
                 key = 'skip/consumer-of-failed-producer-ran'
             else:
                 key = 'skip/child-of-failed-job-ran'
-            ctx.violation(key, f'job {j} ran although dependencies {why[j]} failed or were skipped and it is not always_run', w)
+            ctx.violation(key, f'job {j} ran although dependencies {why[j]} failed or were skipped and it is not always_run'
+                          + (f' (always_run calls on it, in order: {fcalls[j]})' if fcalls.get(j) else ''), w)
         if not ran and not skipped[j]:
             if case['always'][j]:
-                key = 'skip/always-run-job-skipped'
+                key = 'skip/always-run-job-set-again-after-reset-skipped' if fcls[j] == 'reraised' else 'skip/always-run-job-skipped'
             elif any(case['always'][p] and not failed[p] and not skipped[p] for p in deps[j]):
                 key = 'skip/child-of-successful-always-run-job-skipped'
             else:
@@ -924,11 +1029,20 @@ def gen_history(rng, plan, py=None):
     if not plan:
         sk, _, _ = model_outcome({'n': n, 'edges': base['edges'], 'always': always, 'fails': fails})
         leftover = {j for j in range(n) if sk[j]}
-    first_ops = [op for op in base['ops'] if not (op[0] == 'always_run' and not always[op[1]])]
+    first_ops = [list(op) for op in base['ops']]
+    for j in range(n):
+        if base['always'][j] and not always[j]:
+            # the dependent was an always-run job of the generated pipeline: either it is never marked, or (the way a script that
+            # changes its mind does it) the flag is switched off again by a later always_run(False)
+            if rng.random() < 0.5:
+                first_ops = [op for op in first_ops if not (op[0] == 'always_run' and op[1] == j)]
+            else:
+                at = max(i for i, op in enumerate(first_ops) if op[0] == 'always_run' and op[1] == j)
+                first_ops.insert(rng.randint(at + 1, len(first_ops)), ['always_run', j, False])
     p_dry = 0.4 if plan else 0.25
     stages = [{
         'new_jobs': list(range(n)), 'edges_added': [list(e) for e in base['edges']], 'ops': first_ops,
-        'dry': rng.random() < p_dry, 'mode': 'dag', 'cycle_shape': None,
+        'dry': rng.random() < p_dry, 'mode': 'dag', 'cycle_shape': None, 'always': list(always),
     }]
     n_stages = rng.choice([2, 2, 2, 3, 3, 4] if plan else [2, 2, 2, 3, 3])
     closed = False
@@ -979,6 +1093,37 @@ def gen_history(rng, plan, py=None):
             a, b2 = sorted(rng.sample(new, 2), key=rank.get)
             added.setdefault((b2, a), rng.choice(HIST_EDGE_KINDS))
             fails[a], always[a], always[b2] = True, True, False
+        # (real backend) the flag of jobs that an earlier run() has already seen is changed in this sitting - preferably of jobs
+        # that the first run skipped: they are still to be run, so the flag they have NOW decides what this run owes them
+        toggles = {}
+        if not plan and rng.random() < 0.75:
+            pool = sorted(j for j in leftover if j < old_n) if rng.random() < 0.8 else []
+            pool = pool or list(range(old_n))
+            rank = {j: k for k, j in enumerate(hidden)}
+            for j in rng.sample(pool, min(len(pool), rng.choice([1, 2, 2]))):
+                final = rng.random() < 0.4
+                calls = gen_flag_calls(rng, final, True, force_reset=not final and rng.random() < 0.75)
+                if not calls:
+                    calls = [None] if final else [False]
+                toggles[j] = calls
+                always[j] = final
+                if not final and mode == 'dag' and rng.random() < 0.75:
+                    # ... and a new job that fails in this run is put in front of it (one of this sitting's, or one more)
+                    earlier_new = sorted(x for x in new if rank[x] < rank[j] and (j, x) not in edges and not (motif and x == b2))
+                    if earlier_new:
+                        x = rng.choice(earlier_new)
+                    else:
+                        x = n
+                        n += 1
+                        new.append(x)
+                        hidden.insert(hidden.index(j), x)
+                        always.append(True)
+                        fails.append(True)
+                        uses_group.append(False)
+                        py_flags.append(False)
+                        rank = {jj: k for k, jj in enumerate(hidden)}
+                    added.setdefault((j, x), kind_for(x))
+                    fails[x], always[x] = True, True
         if mode == 'cycle':
             deps = {j: set() for j in range(n)}
             for j, d in list(edges) + list(added):
@@ -1044,9 +1189,15 @@ def gen_history(rng, plan, py=None):
 
         create = {x: add(('create', x, None)) for x in new}
         produce = {x: add(('produce', x, None), [create[x]]) for x in new}
+        rich_flags = rng.random() < 0.5
         for x in new:
-            if always[x]:
-                add(('always_run', x, None), [create[x]])
+            prev = create[x]
+            for a in gen_flag_calls(rng, always[x], rich_flags):
+                prev = add(('always_run', x, a), [prev])
+        for j in sorted(toggles):
+            prev = None
+            for a in toggles[j]:
+                prev = add(('always_run', j, a), [prev])
         last_cmd = {x: [produce[x]] for x in new}
         py_consumed = {}
         for (j, d), kind in sorted(added.items()):
@@ -1077,6 +1228,7 @@ def gen_history(rng, plan, py=None):
         stages.append({
             'new_jobs': new, 'edges_added': [[j, d, k] for (j, d), k in sorted(added.items())],
             'ops': [list(ops[i]) for i in order], 'dry': rng.random() < p_dry, 'mode': mode, 'cycle_shape': shape,
+            'always': list(always), 'flags_changed': sorted(toggles),
         })
     return {'backend': 'plan' if plan else 'local', 'n': n, 'always': always, 'fails': fails, 'uses_group': uses_group,
             'py': py_flags, 'stages': stages}
@@ -1195,7 +1347,9 @@ def _on_cycle(deps, n):
 def check_history(ctx, hist, obs):
     plan = hist['backend'] == 'plan'
     bk = hist['backend']
-    always, fails = hist['always'], hist['fails']
+    always, fails = hist['always'], hist['fails']  # `always` is replaced per sitting below: the flags as they are when that run() is called
+    fcalls = {}  # always_run(...) calls made on every job so far, over all sittings
+    flag_changed_later = set()  # jobs whose flag was set again in a sitting after an earlier run() had seen them
     w = {'history': hist, 'observed': obs}
     ctx.count('histories_' + bk)
     if any(hist.get('py') or ()):
@@ -1218,6 +1372,12 @@ def check_history(ctx, hist, obs):
         n += len(stage['new_jobs'])
         for j, d, k in stage['edges_added']:
             edges[(j, d)] = k
+        always = stage.get('always', hist['always'])
+        flag_calls_of(stage['ops'], fcalls)
+        flag_changed_later |= {j for name, j, _ in stage['ops'] if name == 'always_run' and j not in stage['new_jobs']}
+        fcls = {j: flag_class(fcalls.get(j, [])) for j in range(n)}
+        for j in range(n):
+            assert bool(fcalls.get(j) and fcalls[j][-1]) == bool(always[j]), (s, j, fcalls.get(j), always)
         if so.get('build_error'):
             ctx.violation('build/dsl-refused-generated-pipeline', f"sitting {s}: building the pipeline raised {so['build_error']}", w)
             return tuple(outcome) + ('build-error',)
@@ -1347,16 +1507,32 @@ def check_history(ctx, hist, obs):
                         ctx.count('rerun_previously_skipped_job_executed')
                     if ran and j in stage['new_jobs']:
                         ctx.count('rerun_new_job_executed')
+                pre = 'rerun_' if rerun else 'history_first_'
+                if j in flag_changed_later:
+                    ctx.count('rerun_flag_changed_after_earlier_run_job_due')
                 if always[j]:
+                    if fcls[j] == 'reraised' and (now_failed or now_skipped):
+                        ctx.count(pre + 'flag_reraised_job_due_with_bad_parent')
+                    if j in flag_changed_later and j in skipped_before:
+                        ctx.count('rerun_flag_switched_on_for_skipped_job')
                     if not ran:
-                        ctx.violation(f'skip/{tag}always-run-job-skipped', f'sitting {s}: always-run job {j} did not run', w)
+                        key = ('always-run-job-set-again-after-reset-skipped' if fcls[j] == 'reraised' else
+                               'job-made-always-run-after-earlier-run-skipped' if j in flag_changed_later else 'always-run-job-skipped')
+                        ctx.violation(f'skip/{tag}{key}', f'sitting {s}: always-run job {j} did not run (always_run calls on it so far: {fcalls.get(j)})', w)
                 elif now_failed or now_skipped:
+                    if fcls[j] in ('reset', 'false_only'):
+                        ctx.count(pre + 'flag_' + fcls[j] + '_job_due_with_bad_parent')
+                        if j in flag_changed_later:
+                            ctx.count('rerun_flag_switched_off_after_earlier_run_job_due_with_bad_parent')
                     if ran:
                         kinds = {edges[(j, p)] for p in now_failed + now_skipped}
-                        key = (f'skip/{tag}child-of-skipped-job-ran' if not now_failed else
+                        key = (f'skip/{tag}job-reset-to-not-always-run-ran' if fcls[j] == 'reset' else
+                               f'skip/{tag}job-marked-not-always-run-ran' if fcls[j] == 'false_only' else
+                               f'skip/{tag}child-of-skipped-job-ran' if not now_failed else
                                f'skip/{tag}consumer-of-failed-producer-ran' if kinds <= {'resource', 'group', 'group_member'} else
                                f'skip/{tag}child-of-failed-job-ran')
-                        ctx.violation(key, f'sitting {s}: job {j} ran although dependencies {now_failed} failed and {now_skipped} were skipped in this run and it is not always_run', w)
+                        ctx.violation(key, f'sitting {s}: job {j} ran although dependencies {now_failed} failed and {now_skipped} were skipped in this run and it is not always_run'
+                                      + (f' (always_run calls on it so far: {fcalls[j]})' if fcalls.get(j) else ''), w)
                 elif open_parents:
                     # the only bad dependencies failed in an earlier run / sat through a dry run: the property is silent
                     ctx.count('rerun_open_child_of_earlier_failure_' + ('ran' if ran else 'not_run'))
@@ -1481,7 +1657,7 @@ def _run(ctx, py_err):
         ctx.seen('outcome_kinds', outcome[0] if isinstance(outcome, tuple) else outcome)
         key = ('py', tuple(map(tuple, case['edges'])), tuple(case['always']), tuple(case['fails']), tuple(case['py']),
                tuple(j for name, j, _ in case['ops'] if name == 'create'),
-               tuple(repr(arg) for name, _, arg in case['ops'] if name == 'pycall'))
+               tuple(repr(arg) for name, _, arg in case['ops'] if name == 'pycall'), repr(case['flag_calls']))
         ctx.case(sample={'case': {k: v for k, v in case.items() if k != 'ops'},
                          'python_calls': [[j, arg] for name, j, arg in case['ops'] if name == 'pycall'], 'observed': obs},
                  key=key, nontrivial=case['n'] >= 2 and len(case['edges']) >= 1 and any(case['py']))
@@ -1493,7 +1669,7 @@ def _run(ctx, py_err):
         outcome = check(ctx, case, obs)
         ctx.seen('outcome_kinds', outcome[0] if isinstance(outcome, tuple) else outcome)
         key = (tuple(map(tuple, case['edges'])), tuple(case['always']), tuple(case['fails']),
-               tuple(j for name, j, _ in case['ops'] if name == 'create'))
+               tuple(j for name, j, _ in case['ops'] if name == 'create'), repr(case['flag_calls']))
         ctx.case(sample={'case': {k: v for k, v in case.items() if k != 'ops'}, 'observed': obs}, key=key,
                  nontrivial=case['n'] >= 2 and len(case['edges']) >= 1)
 
@@ -1508,7 +1684,8 @@ def _run(ctx, py_err):
             key = (hist['backend'], tuple(hist['always']), tuple(hist['fails']), tuple(hist['py']),
                    tuple((st['dry'], len(st['new_jobs']), tuple(map(tuple, st['edges_added'])),
                           tuple(j for name, j, _ in st['ops'] if name == 'create'),
-                          tuple(repr(arg) for name, _, arg in st['ops'] if name == 'pycall')) for st in hist['stages']))
+                          tuple(repr(arg) for name, _, arg in st['ops'] if name == 'pycall'),
+                          tuple((j, arg) for name, j, arg in st['ops'] if name == 'always_run')) for st in hist['stages']))
             ctx.case(sample={'history': {k: ([{a: b for a, b in st.items() if a != 'ops'} for st in v] if k == 'stages' else v)
                                          for k, v in hist.items()}, 'observed': obs},
                      key=key, nontrivial=len(hist['stages']) >= 2)
